@@ -17,8 +17,11 @@ def sha(b):
     return hashlib.sha256(b).hexdigest()[:16]
 
 
-def fault_env(fault=None):
+def fault_env(fault=None, behaviour=None):
     env = build.cli_env()
+    env.pop("VERIF_BEHAVIOUR", None)
+    if behaviour:
+        env["VERIF_BEHAVIOUR"] = json.dumps(behaviour)
     env["PATH"] = str(FAULTS / "bin") + ":" + env["PATH"]
     env["PYTHONPATH"] = str(FAULTS) + ":" + env["PYTHONPATH"]
     env["NANOEMOJI_VERIF"] = "1"
@@ -55,6 +58,7 @@ class World:
         self.truncated = {}  # relative output path -> bytes left by a fired truncate_kill
         self.renamed_over = []  # source paths replaced by an older file
         self.problems = []
+        self.behaviour = None  # a standing tool behaviour (applies to every later invocation, the clean build too)
         self.logged_cmd = {}  # output -> command text of the run that wrote its current log entry
         self.log_state = {}
         self.dirty_cases = []  # (Coq literal, meta) for the model-vs-ninja dirtiness correspondence
@@ -206,7 +210,7 @@ class World:
         if fault:
             fault = dict(fault, marker=str(marker))
         args = ["--build_dir", self.d / build_dir] + opt_flags(self.opts) + [str(p) for p in self.sources()]
-        rc, out = build.run_cli(args, cwd=self.d, env=fault_env(fault))
+        rc, out = build.run_cli(args, cwd=self.d, env=fault_env(fault, self.behaviour))
         fired = marker.exists()
         if fault and fired and fault.get("mode") == "truncate_kill" and fault.get("output"):
             p = self.d / build_dir / fault["output"]
@@ -441,6 +445,28 @@ def directed_bitmap(w):
     ]
 
 
+def directed_pngquant_declines(w):
+    """pngquant declines the re-rendered bitmap (exit 99: quality too low / result larger): the wrapper must
+    replace the earlier output by the unquantised bitmap, in the incremental build as in the clean one"""
+    def setk(k, v):
+        def f(w):
+            w.opts[k] = v
+            w.log.append(dict(op="setopt", key=k, value=v))
+
+        return f
+
+    stem = w.sources()[0].stem
+
+    def modify_and_decline(w):
+        p = w.sources()[0]
+        t = svg_text(w.rng)
+        p.write_text(t)
+        w.behaviour = dict(tool="pngquant", target=stem, exit=w.rng.choice([98, 99]))
+        w.log.append(dict(op="modify", name=p.name, text=t, tool_behaviour=w.behaviour))
+
+    return [([setk("color_format", "cbdt"), setk("bitmap_resolution", 32), setk("use_pngquant", True)], None), ([modify_and_decline], None)]
+
+
 def directed_f7(w):
     def add(w):
         w.add()
@@ -472,7 +498,7 @@ def main(argv):
     n = 6 if tier == "quick" else 120
     seeds = [rng.getrandbits(40) for _ in range(n)]
     jobs = [(s, rng.randint(2, 4 if tier == "quick" else 6), None) for s in seeds]
-    jobs += [(rng.getrandbits(40), 0, directed_f17), (rng.getrandbits(40), 0, directed_f17_silent), (rng.getrandbits(40), 0, directed_f7), (rng.getrandbits(40), 0, directed_options), (rng.getrandbits(40), 0, directed_bitmap)]
+    jobs += [(rng.getrandbits(40), 0, directed_f17), (rng.getrandbits(40), 0, directed_f17_silent), (rng.getrandbits(40), 0, directed_f7), (rng.getrandbits(40), 0, directed_options), (rng.getrandbits(40), 0, directed_bitmap), (rng.getrandbits(40), 0, directed_pngquant_declines)]
     with ThreadPoolExecutor(8) as ex:
         results = list(ex.map(lambda j: run_history(*j), jobs))
     known = known_ids("C09")
